@@ -26,6 +26,8 @@ case "$PROP:$TIER" in
   C07:*) ARGS="-len 3 -check view";;
   C13:quick) ARGS="-len 3";;
   C13:*) ARGS="-len 4";;
+  C15:quick) ARGS="-res 2 -reps 3";;
+  C15:*) ARGS="-res 3 -reps 2";;
   C17:quick) ARGS="-n 5 -args 2 -arglen 2";;
   C17:*) ARGS="-n 7 -args 2 -arglen 3";;
   C18:quick) ARGS="-len 2";;
